@@ -147,7 +147,7 @@ class TranslateNode(Node, TranslatableTag):
         """
         try:
             return to_int(block_scope.get(self.message_count_var, 1))  # defaults to 1
-        except ValueError:
+        except (ValueError, TypeError, OverflowError):
             return 1
 
     def resolve_message_context(
